@@ -70,6 +70,9 @@ class JobContext(object):
         self.scratch = []
         self.hashseeds = 0
         self.env_nondet = False
+        self.cross_left = 0
+        self.cross_done = []
+        self.cross_disagree = []
 
     # -- known findings ------------------------------------------------------------------------
     def known_for(self, label):
@@ -129,6 +132,9 @@ class JobContext(object):
                     kn.append((k, kt))
             q = And(Not(t), *[Not(kt) for _, kt in kn])
             items.append([label, t, kn, q])
+        if self.cross_left > 0:
+            self.cross_left -= 1
+            self.cross_check(Or(*[it[3] for it in items]))
         t0 = time.time()
         if os.environ.get("PSX_NOBATCH"):
             for it in items:
@@ -172,6 +178,44 @@ class JobContext(object):
                 r2, m2 = self.check_model(Not(t), kt)
                 if r2 == "sat":
                     self.candidate(sym, label, sym.concrete_inputs(m2), k)
+
+    def cross_check(self, query):
+        """re-decide one obligation batch with two other solvers (z3 4.8.12 binary, cvc5 binary) on its SMT-LIB2 export"""
+        import z3
+        import tempfile
+        I = self.I
+        s = I.solver
+        s.push()
+        try:
+            s.add(query if not isinstance(query, bool) else z3.BoolVal(query))
+            text = s.to_smt2()
+            ours = str(s.check())
+        finally:
+            s.pop()
+        if ours not in ("sat", "unsat"):
+            return
+        rec = {"ours": ours}
+        with tempfile.NamedTemporaryFile("w", suffix=".smt2", delete=False) as f:
+            f.write("(set-logic ALL)\n" + text)
+            path = f.name
+        try:
+            for name, cmd in (("z3-4.8.12", ["/usr/bin/z3", "-T:60", path]), ("cvc5-1.0", ["cvc5", "--tlimit=60000", path])):
+                try:
+                    p = subprocess.run(cmd, capture_output=True, text=True, timeout=90)
+                    out = (p.stdout or "").strip().splitlines()
+                    ans = out[0].strip() if out else "none"
+                    if "(error" in (p.stdout or "") or "(error" in (p.stderr or ""):
+                        ans = "error"
+                except subprocess.TimeoutExpired:
+                    ans = "timeout"
+                except FileNotFoundError:
+                    ans = "unavailable"
+                rec[name] = ans
+                if ans in ("sat", "unsat") and ans != ours:
+                    self.cross_disagree.append(dict(rec))
+        finally:
+            os.unlink(path)
+        self.cross_done.append(rec)
 
     def check_model(self, *extra):
         """(verdict, model) for path condition + extra; retries an `unknown` with a fresh solver"""
@@ -332,6 +376,7 @@ class JobContext(object):
             "validation_mismatch": self.validation_mismatch, "witness": self.witness, "exc_paths": dict(self.exc_paths),
             "solver_calls": st.solver_calls, "solver_time": round(st.solver_time, 3), "max_query": round(st.max_query, 3),
             "steps": st.steps, "unknown": st.unknown, "functions": st.functions, "patterns": sorted(st.patterns),
+            "cross_done": self.cross_done, "cross_disagree": self.cross_disagree,
             "cuts": st.cuts,
         }
 
@@ -427,6 +472,7 @@ def run_job(spec):
         ctx.I = I
         ctx.hashseeds = job.get("replay_hashseeds", 0)
         ctx.env_nondet = bool(job.get("env_nondet"))
+        ctx.cross_left = job.get("cross_check", 2 if tier == "thorough" else 0)
         I.flush_hook = ctx.flush
         sym = api.Sym(I, ctx)
         ctx.sym = sym
@@ -450,9 +496,38 @@ def run_job(spec):
                 "wall_s": round(time.time() - t0, 2)}
 
 
+def engine_selftests(meta, tier, seed):
+    """differential validation of the engine's models, run inside the check (results go into the evidence)"""
+    out = {}
+    errors = []
+    try:
+        from . import selftest
+        sys.path.insert(0, HARNESS_DIR)
+        import C19
+        pats = set(C19.collect_patterns())
+        r = selftest.regex_selftest(pats, seed, per_pattern=400 if tier == "thorough" else 120)
+        out["regex_vm_vs_re"] = r
+        r2 = selftest.string_selftest(seed, rounds=230 if tier == "thorough" else 69)
+        out["string_models_pinned"] = {k: v for k, v in r2.items() if k != "failures"}
+        out["string_models_pinned"]["failures"] = len(r2["failures"])
+        for f in r2["failures"][:5]:
+            errors.append("engine self-test: string model disagrees with CPython: %s" % json.dumps(f, default=str))
+        if meta.get("fp_lemma"):
+            r3 = selftest.lemma_int_float_roundtrip()
+            out["lemma_int_float_roundtrip"] = r3
+            if not (r3["holds_up_to_2**53"] and r3["fails_at_2**53+1"]):
+                errors.append("engine self-test: lemma int_float_roundtrip not established: %s" % r3)
+    except AssertionError as e:
+        errors.append("engine self-test: regex encoding disagrees with re: %s" % (e,))
+    except Exception as e:
+        errors.append("engine self-test failed to run: %s: %s" % (type(e).__name__, e))
+    return out, errors
+
+
 def run_check(prop, modname, tier, seed, jobs, meta, nproc=None, wall_budget_s=None):
     """run all jobs, write evidence, print verdict lines, return the exit code"""
     t0 = time.time()
+    st, st_errors = engine_selftests(meta, tier, seed)
     nproc = nproc or int(os.environ.get("PSX_WORKERS", "16"))
     specs = [{"prop": prop, "module": modname, "job": j, "tier": tier, "seed": seed} for j in jobs]
     results = []
@@ -464,7 +539,7 @@ def run_check(prop, modname, tier, seed, jobs, meta, nproc=None, wall_budget_s=N
         with ctx.Pool(min(nproc, len(specs)), maxtasksperchild=8) as pool:
             for r in pool.imap_unordered(run_job, specs, chunksize=1):
                 results.append(r)
-    return finish(prop, tier, seed, results, meta, time.time() - t0)
+    return finish(prop, tier, seed, results, meta, time.time() - t0, extra_coverage={"engine_selftests": st}, extra_errors=st_errors)
 
 
 def finish(prop, tier, seed, results, meta, wall, extra_coverage=None, extra_errors=None, extra_violations=None):
@@ -483,6 +558,7 @@ def finish(prop, tier, seed, results, meta, wall, extra_coverage=None, extra_err
     per_harness = collections.defaultdict(lambda: collections.Counter())
     max_query = 0.0
     degraded = []
+    cross = []
     for r in results:
         hname = r.get("harness")
         if "crash" in r:
@@ -518,6 +594,9 @@ def finish(prop, tier, seed, results, meta, wall, extra_coverage=None, extra_err
             errors.append("spurious model (does not replay) in %s %s check %r: %s" % (hname, r["params"], s["label"], json.dumps(s["native"], default=str)[:600]))
         for s in r["inconclusive"]:
             errors.append("inconclusive obligation in %s %s: %s" % (hname, r["params"], s))
+        cross.extend(r.get("cross_done", []))
+        for s in r.get("cross_disagree", []):
+            errors.append("solver disagreement in %s %s: %s" % (hname, r["params"], s))
         for s in r["validation_mismatch"]:
             errors.append("engine/native mismatch in %s %s: %s inputs=%s" % (hname, r["params"], s["reason"], json.dumps(s["inputs"], default=str)[:400]))
         for k, v in r["path_reasons"].items():
@@ -562,6 +641,8 @@ def finish(prop, tier, seed, results, meta, wall, extra_coverage=None, extra_err
         "cuts_outside_claim": dict(cuts),
         "cover_labels_reached": dict(covers),
         "paths_validated_natively": int(tot["validated"]),
+        "cross_checked": {"obligation_batches": len(cross), "answers": dict(collections.Counter("%s/%s/%s" % (c.get("ours"), c.get("z3-4.8.12"), c.get("cvc5-1.0")) for c in cross)),
+                          "note": "ours / z3 4.8.12 binary / cvc5 1.0 binary on the SMT-LIB2 export; thorough tier only"},
         "samples": samples + [{"witness_model": w} for w in witnesses],
         "exhaustive": exhaustive,
         "known_findings_reproduced": known_hits,
